@@ -138,12 +138,14 @@ pub fn run_scenario<R: RiskManager<State = State>>(rig: &mut Rig<R>, links: [Lin
             let (i, cid) = (r.key().instrument.index(), r.key().cid.0.as_str());
             let st = engine_order_state(&rig.engine.state, i, cid);
             let mark_ok = mstate_matches(cid, model.orders[i].get(cid).map(|o| &o.state), st.as_ref());
-            let outputs_dropped = e.via == Via::Algo && algo_failed;
+            // (on the tree as found a fatal algo tick dropped its whole output from the audit - repaired by a fix: commit, see /verif/KNOWN_FINDINGS;
+            // the report of a fatal tick is now checked like any other)
+            let outputs_dropped = false; let _ = algo_failed;
             match e.outcome {
                 Outcome::Sent => {
                     let n = exps.iter().filter(|f| f.req == *r && f.outcome == Outcome::Sent).count();
                     if observable && count(&delivered[x], r) != n { run.fail(L_DELIVERED, k, format!("{} (link healthy) delivered {}x to exchange {x}", r.short(), count(&delivered[x], r)), format!("delivered {n}x")); }
-                    let n_rep = exps.iter().filter(|f| f.req == *r && f.outcome == Outcome::Sent && !(f.via == Via::Algo && algo_failed)).count();
+                    let n_rep = exps.iter().filter(|f| f.req == *r && f.outcome == Outcome::Sent).count();
                     if !outputs_dropped && count(&rep.sent, r) != n_rep { run.fail(L_DELIVERED, k, format!("{} (link healthy) reported sent {}x; errors {:?}", r.short(), count(&rep.sent, r), rep.errors.iter().filter(|(q, _)| q == r).map(|(_, er)| er.to_string()).collect::<Vec<_>>()), format!("reported sent {n_rep}x")); }
                     if !mark_ok { run.fail(L_INFLIGHT, k, format!("{}: order state afterwards {:?}", r.short(), st), format!("{:?}", model.orders[i].get(cid).map(|o| &o.state))); }
                 }
@@ -153,7 +155,7 @@ pub fn run_scenario<R: RiskManager<State = State>>(rig: &mut Rig<R>, links: [Lin
                     let reported = match (e.via, tuple) {
                         (_, Some((_, err))) => matches!(err, barter::engine::error::EngineError::Unrecoverable(_)),
                         (Via::Cmd, None) => false,
-                        (Via::Algo, None) => rep.fatal >= 1,
+                        (Via::Algo, None) => false,
                     };
                     if anywhere != 0 || count(&rep.sent, r) != 0 || !reported || rep.fatal != n_failed || !mark_ok {
                         run.fail(L_FAILED, k, format!("{} (link {:?}): delivered {anywhere}x, reported sent {}x, error tuple {:?}, fatal errors on the audit {}, order state {:?}", r.short(), model.link(x), count(&rep.sent, r), tuple.map(|(_, er)| er.to_string()), rep.fatal, st),
